@@ -1,1 +1,494 @@
-// harnesses for vub_handler
+// Child module of vhost_user_backend::handler.
+//
+// The daemon-side request handler (VhostUserHandler) built by struct literal (its constructor spawns
+// threads and cannot be compiled by Kani), driven through the real VhostUserBackendReqHandlerMut
+// methods, with the worker's reaction to epoll events executed by the real VringEpollHandler::handle_event
+// on the ghost interest lists / eventfd counters of vub_lib.rs.
+//   C11  ring state machine over bounded symbolic histories + one-step registration invariant
+//   C13  address translation (vmm_va_to_gpa) over symbolic mapping tables
+//   C14  ring size / base / feature plumbing that does not touch guest memory
+//   C17  event-id arithmetic and routing for symbolic queues-per-thread masks
+//   C05  (daemon half) index / size arithmetic never panics or overflows
+use super::*;
+use crate::backend::verif::{VB, VBR};
+use crate::event_loop::verif as ev;
+use crate::verif as vgm;
+use crate::vring::verif as vr;
+use crate::vring::{VringMutex, VringRwLock};
+use std::mem::ManuallyDrop;
+use std::os::unix::io::{FromRawFd, RawFd};
+use vm_memory::GuestMemoryAtomic;
+use vmm_sys_util::event::EventNotifier;
+
+type Mem = GuestMemoryAtomic<GuestMemoryMmap<()>>;
+
+fn file(fd: RawFd) -> File {
+    // SAFETY: ghost descriptor number, never used for I/O
+    unsafe { File::from_raw_fd(fd) }
+}
+
+macro_rules! h_proof {
+    ($(#[$m:meta])* fn $name:ident() $body:block) => {
+        $(#[$m])*
+        #[kani::proof]
+        #[kani::stub(vmm_sys_util::epoll::Epoll::ctl, vgm::ghost_epoll_ctl)]
+        #[kani::stub(vmm_sys_util::event::EventConsumer::consume, vgm::ghost_consume)]
+        #[kani::stub(vmm_sys_util::event::EventNotifier::notify, vgm::ghost_notify)]
+        #[kani::stub(libc::close, vgm::ghost_close)]
+        #[kani::stub(<std::os::fd::OwnedFd as std::ops::Drop>::drop, vgm::ghost_ownedfd_drop)]
+        #[kani::stub(std::alloc::handle_alloc_error, vgm::ghost_alloc_error)]
+        fn $name() $body
+    };
+}
+
+/// handler over `nq` mutex rings; `masks` = queues-per-thread; thread t's slice holds the rings whose bit
+/// is set in masks[t], in queue order (what VhostUserHandler::new builds, given here)
+fn mk_handler_m(nq: usize, masks: &[u64]) -> (ManuallyDrop<VhostUserHandler<VB>>, Vec<usize>) {
+    let mem = ManuallyDrop::new(GuestMemoryAtomic::new(GuestMemoryMmap::<()>::new()));
+    vgm::vg().num_queues = nq;
+    let mut vrings: Vec<VringMutex<Mem>> = Vec::new();
+    let mut ids = Vec::new();
+    let mut q = 0;
+    while q < nq {
+        let v = vr::mk_vring_mutex(vr::dup_mem(&mem), 256);
+        ids.push(vr::ring_id_mutex(&v));
+        vrings.push(v);
+        q += 1;
+    }
+    let mut handlers = Vec::new();
+    let mut t = 0;
+    while t < masks.len() {
+        let mut tv = Vec::new();
+        let mut q = 0;
+        while q < nq {
+            if (masks[t] >> q) & 1 == 1 {
+                tv.push(vrings[q].clone());
+            }
+            q += 1;
+        }
+        handlers.push(Arc::new(ev::mk_epoll_handler(VB, tv, t, None)));
+        t += 1;
+    }
+    let h = VhostUserHandler {
+        backend: VB,
+        handlers,
+        owned: false,
+        features_acked: false,
+        acked_features: 0,
+        acked_protocol_features: 0,
+        num_queues: nq,
+        max_queue_size: vgm::vg().max_queue_size,
+        queues_per_thread: masks.to_vec(),
+        mappings: Vec::new(),
+        atomic_mem: vr::dup_mem(&mem),
+        vrings,
+        worker_threads: Vec::new(),
+    };
+    (ManuallyDrop::new(h), ids)
+}
+fn mk_handler_r(nq: usize, masks: &[u64]) -> (ManuallyDrop<VhostUserHandler<VBR>>, Vec<usize>) {
+    let mem = ManuallyDrop::new(GuestMemoryAtomic::new(GuestMemoryMmap::<()>::new()));
+    vgm::vg().num_queues = nq;
+    let mut vrings: Vec<VringRwLock<Mem>> = Vec::new();
+    let mut ids = Vec::new();
+    let mut q = 0;
+    while q < nq {
+        let v = vr::mk_vring_rwlock(vr::dup_mem(&mem), 256);
+        ids.push(vr::ring_id_rwlock(&v));
+        vrings.push(v);
+        q += 1;
+    }
+    let mut handlers = Vec::new();
+    let mut t = 0;
+    while t < masks.len() {
+        let mut tv = Vec::new();
+        let mut q = 0;
+        while q < nq {
+            if (masks[t] >> q) & 1 == 1 {
+                tv.push(vrings[q].clone());
+            }
+            q += 1;
+        }
+        handlers.push(Arc::new(ev::mk_epoll_handler(VBR, tv, t, None)));
+        t += 1;
+    }
+    let h = VhostUserHandler {
+        backend: VBR,
+        handlers,
+        owned: false,
+        features_acked: false,
+        acked_features: 0,
+        acked_protocol_features: 0,
+        num_queues: nq,
+        max_queue_size: vgm::vg().max_queue_size,
+        queues_per_thread: masks.to_vec(),
+        mappings: Vec::new(),
+        atomic_mem: vr::dup_mem(&mem),
+        vrings,
+        worker_threads: Vec::new(),
+    };
+    (ManuallyDrop::new(h), ids)
+}
+
+const PF: u64 = 1 << 30; // VHOST_USER_F_PROTOCOL_FEATURES
+
+// ---------------------------------------------------------------------------------------- C11
+/// reference ring state machine (per ring)
+#[derive(Clone, Copy)]
+struct RefRing {
+    started: bool,
+    enabled: bool,
+    kick: Option<RawFd>,
+    call: bool,
+}
+
+macro_rules! c11_history {
+    ($name:ident, $mk:ident, $depth:expr, $unwind:expr, $idfn:path) => {
+        h_proof! { #[kani::unwind($unwind)] fn $name() {
+            let (mut h, _ids) = $mk(2, &[0b11]);
+            let epfd = ev::EPFD0;
+            vgm::vg().features = kani::any();
+            let mut rr = [RefRing { started: false, enabled: false, kick: None, call: false }; 2];
+            let mut next_fd = vgm::FD0;
+            let mut dispatched_ok = true;
+            let mut step = 0;
+            while step < $depth {
+                let op: u8 = kani::any();
+                kani::assume(op < 8);
+                let q: usize = kani::any();
+                kani::assume(q < 2);
+                match op {
+                    // SET_FEATURES with / without PROTOCOL_FEATURES (only offered bits are accepted)
+                    0 => {
+                        let with_pf: bool = kani::any();
+                        let f = if with_pf { vgm::vg().features | PF } else { vgm::vg().features & !PF };
+                        vgm::vg().features |= PF;
+                        let r = h.set_features(f);
+                        if r.is_ok() && !with_pf {
+                            rr[0].enabled = true;
+                            rr[1].enabled = true;
+                        }
+                        std::mem::forget(r);
+                    }
+                    // SET_VRING_KICK with a new descriptor / without
+                    1 => {
+                        let with: bool = kani::any();
+                        let fd = if with { let f = next_fd; next_fd += 1; Some(f) } else { None };
+                        let r = h.set_vring_kick(q as u8, fd.map(file));
+                        assert!(r.is_ok());
+                        std::mem::forget(r);
+                        rr[q].kick = fd;
+                        if fd.is_some() {
+                            rr[q].started = true;
+                        }
+                    }
+                    2 => {
+                        let f = next_fd;
+                        next_fd += 1;
+                        let r = h.set_vring_call(q as u8, Some(file(f)));
+                        assert!(r.is_ok());
+                        std::mem::forget(r);
+                        rr[q].call = true;
+                        if rr[q].kick.is_some() {
+                            rr[q].started = true;
+                        }
+                    }
+                    3 => {
+                        let en: bool = kani::any();
+                        let r = h.set_vring_enable(q as u32, en);
+                        if r.is_ok() {
+                            rr[q].enabled = en;
+                        } else {
+                            assert!(h.acked_features & PF == 0, "C11: SET_VRING_ENABLE refused although PROTOCOL_FEATURES was acknowledged");
+                        }
+                        std::mem::forget(r);
+                    }
+                    4 => {
+                        let base: u16 = kani::any();
+                        let r0 = h.set_vring_base(q as u32, base as u32);
+                        std::mem::forget(r0);
+                        let r = h.get_vring_base(q as u32);
+                        match &r {
+                            Ok(s) => {
+                                let (i, n) = (s.index, s.num);
+                                assert!(i == q as u32 && n == base as u32, "C11/C14: GET_VRING_BASE returns the next-available index");
+                            }
+                            Err(_) => assert!(false, "C11: GET_VRING_BASE on a valid ring failed"),
+                        }
+                        std::mem::forget(r);
+                        rr[q].started = false;
+                        rr[q].kick = None;
+                        rr[q].call = false;
+                    }
+                    5 => {
+                        let r = h.reset_device();
+                        assert!(r.is_ok());
+                        std::mem::forget(r);
+                        rr[0].enabled = false;
+                        rr[1].enabled = false;
+                    }
+                    // guest kick on the ring's current kick descriptor
+                    6 => {
+                        if let Some(fd) = rr[q].kick {
+                            vgm::kick(fd);
+                        }
+                    }
+                    // worker turn: epoll reports every registered descriptor whose counter is non-zero
+                    _ => {
+                        let mut k = 0;
+                        while k < 2 {
+                            if let Some(fd) = rr[k].kick {
+                                if vgm::pending(fd) {
+                                    if let Some(data) = vgm::registered(epfd, fd) {
+                                        let before = vgm::vg().he_calls;
+                                        let res = ev::worker_handle_event(&h.handlers[0], data as u16);
+                                        assert!(res == Some(false), "C11: worker step failed");
+                                        let called = vgm::vg().he_calls == before + 1;
+                                        if called {
+                                            dispatched_ok = dispatched_ok && vgm::vg().he_event == k as u16 && rr[k].started && rr[k].enabled;
+                                        }
+                                        assert!(called == (rr[k].started && rr[k].enabled), "C11: event handler runs iff the ring is started and enabled");
+                                        assert!(!vgm::pending(fd) || !called);
+                                    }
+                                }
+                            }
+                            k += 1;
+                        }
+                    }
+                }
+                // ---- invariants after every step
+                let mut k = 0;
+                while k < 2 {
+                    let v = &h.vrings[k];
+                    let active = vr::is_active(v);
+                    assert!(active == (rr[k].started && rr[k].enabled), "C11: started/enabled state follows the protocol");
+                    assert!(vr::kick_fd(v) == rr[k].kick, "C11: current kick descriptor");
+                    if let Some(fd) = rr[k].kick {
+                        let reg = vgm::registered(epfd, fd);
+                        // C11: a kick on the current descriptor is dispatched iff (and as soon as) the ring is
+                        // started and enabled: the descriptor is in the worker's interest list exactly then
+                        assert!(reg.is_some() == (rr[k].started && rr[k].enabled), "C11: kick descriptor registered with the worker iff ring started and enabled");
+                        if let Some(d) = reg {
+                            assert!(d == k as u64, "C17: event id of the ring");
+                        }
+                    }
+                    k += 1;
+                }
+                assert!(!vgm::vg().reg_overflow);
+                step += 1;
+            }
+            assert!(dispatched_ok, "C11: dispatches only for the kicked, active ring");
+            assert!(!vgm::vg().consumed_empty, "C11: worker consumed a kick that was never raised");
+            kani::cover!(vgm::vg().he_calls > 0, "witness: a kick is dispatched within the history");
+        } }
+    };
+}
+// @harness props=C11 tier=quick timeout=1500 bound="2 rings (Mutex), one worker; every history of length 3 over {SET_FEATURES +-PF, SET_VRING_KICK new/none, SET_VRING_CALL, SET_VRING_ENABLE 0/1, SET_VRING_BASE+GET_VRING_BASE, RESET_DEVICE, guest kick, worker turn} on a symbolic ring; symbolic offered features" stubs="Epoll::ctl (ghost interest lists; EEXIST/ENOENT as Ok), EventConsumer::consume, EventNotifier::notify, close/OwnedFd::drop"
+c11_history!(c11_history_mutex_d3, mk_handler_m, 3, 5, vr::ring_id_mutex);
+// @harness props=C11 tier=thorough timeout=3000 bound="as c11_history_mutex_d3 with histories of length 4" stubs="Epoll::ctl, EventConsumer::consume, EventNotifier::notify, close/OwnedFd::drop"
+c11_history!(c11_history_mutex_d4, mk_handler_m, 4, 6, vr::ring_id_mutex);
+// @harness props=C11 tier=thorough timeout=1500 bound="as c11_history_mutex_d3 over RwLock rings" stubs="Epoll::ctl, EventConsumer::consume, EventNotifier::notify, close/OwnedFd::drop"
+c11_history!(c11_history_rwlock_d3, mk_handler_r, 3, 5, vr::ring_id_rwlock);
+
+// ---------------------------------------------------------------------------------------- C13
+// @harness props=C13,C05 tier=quick bound="vmm_va_to_gpa: 0..=3 mappings with symbolic user base/size/gpa obeying what the request server validates (size != 0, no 64-bit wrap of user or guest range), all 64-bit probe addresses" stubs="-"
+h_proof! { #[kani::unwind(6)] fn c13_u_va_to_gpa() {
+    let (mut h, _) = mk_handler_m(1, &[1]);
+    let n: usize = kani::any();
+    kani::assume(n <= 3);
+    let ua: [u64; 3] = kani::any();
+    let sz: [u64; 3] = kani::any();
+    let ga: [u64; 3] = kani::any();
+    let mut i = 0;
+    while i < 3 {
+        if i < n {
+            kani::assume(sz[i] != 0 && ua[i].checked_add(sz[i]).is_some() && ga[i].checked_add(sz[i]).is_some());
+            h.mappings.push(AddrMapping { vmm_addr: ua[i], size: sz[i], gpa_base: ga[i] });
+        }
+        i += 1;
+    }
+    let va: u64 = kani::any();
+    let r = h.vmm_va_to_gpa(va);
+    // reference: first region whose user range contains va
+    let hit = |i: usize| i < n && va >= ua[i] && va - ua[i] < sz[i];
+    let exp = if hit(0) { Some(ga[0] + (va - ua[0])) } else if hit(1) { Some(ga[1] + (va - ua[1])) } else if hit(2) { Some(ga[2] + (va - ua[2])) } else { None };
+    kani::cover!(exp.is_some() && n == 3);
+    kani::cover!(exp.is_none() && n == 3);
+    match &r {
+        Ok(g) => assert!(Some(*g) == exp, "C13: gpa = gpa_base + (va - user_base) of the region containing va"),
+        Err(_) => assert!(exp.is_none(), "C13: an address inside a current region must translate"),
+    }
+    std::mem::forget(r);
+} }
+
+// ---------------------------------------------------------------------------------------- C14 / C05
+// @harness props=C14,C05 tier=quick bound="SET_VRING_NUM / SET_VRING_BASE / GET_VRING_BASE / SET_VRING_ENABLE / SET_VRING_KICK/CALL/ERR: 4 rings, all u32 (u8) ring indexes, all u32 sizes / bases, max queue size 1..=32768 (power of two)" stubs="Epoll::ctl, close/OwnedFd::drop"
+h_proof! { #[kani::unwind(8)] fn c14_u_ring_config() {
+    let maxq: usize = kani::any();
+    kani::assume(maxq == 1 << 15 || maxq == 256 || maxq == 1 || maxq == 2);
+    vgm::vg().max_queue_size = maxq;
+    let (mut h, _) = mk_handler_m(4, &[0b1111]);
+    let idx: u32 = kani::any();
+    let num: u32 = kani::any();
+    // SET_VRING_NUM
+    let r = h.set_vring_num(idx, num);
+    let in_range = (idx as usize) < 4;
+    if r.is_ok() {
+        assert!(in_range, "C14: out-of-range ring index accepted");
+        assert!(num != 0 && num as usize <= maxq, "C14: zero or over-maximum size accepted");
+        if num.is_power_of_two() {
+            assert!(h.vrings[idx as usize].get_ref().get_queue().size() == num as u16, "C14: the ring has the configured size");
+        }
+    } else {
+        assert!(!in_range || num == 0 || num as usize > maxq, "C14: valid size refused");
+    }
+    std::mem::forget(r);
+    // SET_VRING_BASE then GET_VRING_BASE: next-available index round trip
+    let base: u32 = kani::any();
+    let r = h.set_vring_base(idx, base);
+    assert!(r.is_ok() == in_range, "C14: per-ring message accepted iff the index is in range");
+    std::mem::forget(r);
+    if in_range && base <= 0xffff {
+        assert!(h.vrings[idx as usize].queue_next_avail() == base as u16, "C14: next-available index = base");
+    }
+    let r = h.get_vring_base(idx);
+    match &r {
+        Ok(s) => {
+            let (i, n) = (s.index, s.num);
+            assert!(in_range && i == idx && n == (base & 0xffff), "C14: GET_VRING_BASE returns the next-available index unchanged");
+        }
+        Err(_) => assert!(!in_range),
+    }
+    std::mem::forget(r);
+    // SET_VRING_ENABLE with PROTOCOL_FEATURES acked
+    h.acked_features = PF;
+    let r = h.set_vring_enable(idx, kani::any());
+    assert!(r.is_ok() == in_range, "C14: SET_VRING_ENABLE index check");
+    std::mem::forget(r);
+    // descriptor-carrying per-ring messages (u8 index on this interface)
+    let i8: u8 = kani::any();
+    let r = h.set_vring_kick(i8, None);
+    assert!(r.is_ok() == ((i8 as usize) < 4));
+    std::mem::forget(r);
+    let r = h.set_vring_call(i8, None);
+    assert!(r.is_ok() == ((i8 as usize) < 4));
+    std::mem::forget(r);
+    let r = h.set_vring_err(i8, None);
+    assert!(r.is_ok() == ((i8 as usize) < 4));
+    std::mem::forget(r);
+    kani::cover!(in_range && num == 256);
+} }
+
+// @harness props=C14 tier=quick bound="SET_FEATURES: all 64-bit requested masks against all 64-bit offered masks, 2 rings" stubs="Epoll::ctl, close/OwnedFd::drop"
+h_proof! { #[kani::unwind(5)] fn c14_u_set_features() {
+    let (mut h, _) = mk_handler_m(2, &[0b11]);
+    let offered: u64 = kani::any();
+    let req: u64 = kani::any();
+    vgm::vg().features = offered;
+    let r = h.set_features(req);
+    let subset = req & !offered == 0;
+    kani::cover!(subset && req & (1 << 29) != 0);
+    assert!(r.is_ok() == subset, "C14: SET_FEATURES accepted iff the mask is a subset of the offered features");
+    if subset {
+        let g = vgm::vg();
+        assert!(g.acked_calls == 1 && g.acked == req, "C14: the backend receives exactly the acknowledged bits");
+        let ei = req & (1 << 29) != 0; // VIRTIO_RING_F_EVENT_IDX
+        assert!(g.event_idx_calls == 1 && g.event_idx == ei, "C14: EVENT_IDX setting reaches the backend");
+        assert!(h.vrings[0].get_ref().get_queue().event_idx_enabled() == ei && h.vrings[1].get_ref().get_queue().event_idx_enabled() == ei, "C14: EVENT_IDX setting reaches every queue");
+        // without PROTOCOL_FEATURES all rings are enabled, otherwise left as they were (disabled)
+        let all_on = req & PF == 0;
+        assert!(h.vrings[0].get_ref().is_enabled() == all_on && h.vrings[1].get_ref().is_enabled() == all_on, "C11/C14: rings enabled by a SET_FEATURES lacking PROTOCOL_FEATURES");
+    } else {
+        assert!(vgm::vg().acked_calls == 0 && vgm::vg().event_idx_calls == 0, "C14: refused features reach nobody");
+    }
+    std::mem::forget(r);
+} }
+
+// ---------------------------------------------------------------------------------------- C17
+// @harness props=C17 tier=quick timeout=900 bound="queues-per-thread: 1..=3 symbolic 64-bit masks over 4 queues (sparse / overlapping / bits beyond the queue count allowed); every queue started+enabled in turn (symbolic q); registration and dispatch checked" stubs="Epoll::ctl (ghost interest lists), EventConsumer::consume, close/OwnedFd::drop"
+h_proof! { #[kani::unwind(7)] fn c17_u_routing() {
+    let nt: usize = kani::any();
+    kani::assume(nt >= 1 && nt <= 3);
+    let m: [u64; 3] = kani::any();
+    // each thread mask is arbitrary in its low 6 bits (bits 4,5 are beyond the queue count) - higher bits zero
+    kani::assume(m[0] < 64 && m[1] < 64 && m[2] < 64);
+    let (mut h, ids) = mk_handler_m(4, &m[..nt]);
+    let q: usize = kani::any();
+    kani::assume(q < 4);
+    let fd = vgm::FD0 + q as RawFd;
+    // start + enable ring q
+    let r = h.set_vring_kick(q as u8, Some(file(fd)));
+    assert!(r.is_ok());
+    std::mem::forget(r);
+    h.acked_features = PF;
+    let r = h.set_vring_enable(q as u32, true);
+    assert!(r.is_ok());
+    std::mem::forget(r);
+    // reference: owner = first thread whose mask contains q; event id = number of lower set bits
+    let owner = if (m[0] >> q) & 1 == 1 { Some(0) } else if nt > 1 && (m[1] >> q) & 1 == 1 { Some(1) } else if nt > 2 && (m[2] >> q) & 1 == 1 { Some(2) } else { None };
+    kani::cover!(owner == Some(2));
+    let total = vgm::registrations_of(fd);
+    match owner {
+        None => assert!(total == 0, "C17: a queue no thread owns is watched by nobody"),
+        Some(t) => {
+            assert!(total == 1, "C17: a kick on queue q is handled by exactly one worker");
+            let data = vgm::registered(ev::EPFD0 + t as RawFd, fd);
+            let rank = (m[t] & ((1u64 << q) - 1)).count_ones() as u64;
+            assert!(data == Some(rank), "C17: registered on the first thread whose mask contains q, with the ring's rank as event id");
+            // the worker's dispatch: the real handle_event with that id
+            vgm::kick(fd);
+            let res = ev::worker_handle_event(&h.handlers[t], rank as u16);
+            assert!(res == Some(false));
+            let g = vgm::vg();
+            assert!(g.he_calls == 1 && g.he_thread == t && g.he_event == rank as u16, "C17: backend sees that thread's id and the rank as event id");
+            assert!(g.he_ring_id == ids[q], "C17: the ring slice element at that event id is queue q");
+            assert!(!vgm::pending(fd), "C11: the kick is consumed by the dispatch");
+        }
+    }
+} }
+
+// @harness props=C17 tier=quick bound="register_listener / unregister_listener: all 64-bit ids against 1..=6 queues; exit event id = num_queues" stubs="Epoll::ctl (ghost interest lists)"
+h_proof! { #[kani::unwind(8)] fn c17_u_listener_ids() {
+    let nq: usize = kani::any();
+    kani::assume(nq >= 1 && nq <= 6);
+    vgm::vg().num_queues = nq;
+    let hnd = ManuallyDrop::new(ev::mk_epoll_handler(VB, Vec::new(), 0, None));
+    let id: u64 = kani::any();
+    let r = hnd.register_listener(vgm::FD0 + 7, EventSet::IN, id);
+    kani::cover!(r.is_ok());
+    let ok = r.is_ok();
+    std::mem::forget(r);
+    assert!(ok == (id > nq as u64), "C17: custom listeners are accepted only with ids above num_queues (queues and exit event are reserved)");
+    if ok {
+        assert!(vgm::registered(ev::EPFD0, vgm::FD0 + 7) == Some(id), "C17: registered with exactly the given id");
+    } else {
+        assert!(vgm::registrations_of(vgm::FD0 + 7) == 0);
+    }
+    let r = hnd.unregister_listener(vgm::FD0 + 7, EventSet::IN, id);
+    assert!(r.is_ok() == (id > nq as u64));
+    std::mem::forget(r);
+    assert!(vgm::registrations_of(vgm::FD0 + 7) == 0);
+} }
+
+// @harness props=C17 tier=quick bound="worker dispatch of an event id: ids 0..=65535 on a worker with 0..=2 rings and an exit event; exit id = num_queues ends the loop, ring ids read the kick, other ids go to the backend untouched" stubs="Epoll::ctl, EventConsumer::consume, EventNotifier::notify, close/OwnedFd::drop"
+h_proof! { #[kani::unwind(6)] fn c17_u_dispatch_ids() {
+    let nq: usize = 2;
+    vgm::vg().num_queues = nq;
+    let mem = ManuallyDrop::new(GuestMemoryAtomic::new(GuestMemoryMmap::<()>::new()));
+    let v0 = vr::mk_vring_mutex(vr::dup_mem(&mem), 256);
+    let v1 = vr::mk_vring_mutex(vr::dup_mem(&mem), 256);
+    v0.set_enabled(true);
+    v1.set_enabled(true);
+    // SAFETY: ghost descriptor number
+    let exit = unsafe { EventNotifier::from_raw_fd(vgm::FD0 + 6) };
+    let hnd = ManuallyDrop::new(ev::mk_epoll_handler(VB, vec![v0, v1], 0, Some(exit)));
+    let id: u16 = kani::any();
+    let res = ev::worker_handle_event(&hnd, id);
+    kani::cover!(res == Some(true));
+    let g = vgm::vg();
+    if id as usize == nq {
+        assert!(res == Some(true) && g.he_calls == 0, "C17: the exit event (id num_queues) stops the worker and is never delivered to the backend");
+    } else {
+        assert!(res == Some(false) && g.he_calls == 1 && g.he_event == id, "C17: every other id is delivered with exactly its id");
+    }
+} }
